@@ -384,7 +384,7 @@ def build_synth(spec: dict):
     return FuncIR(FuncDecl(spec["name"], None, "synthetic", sig), args, blocks)
 
 
-def dump_rich(d: "PassDumper", name: str, fn, labels: dict) -> None:
+def dump_rich(d: "PassDumper", name: str, fn, labels: dict, xspec=None) -> None:
     """Dump for the check-inserting passes: like PassDumper.dump plus what the parent's normaliser needs
     (register names, which ops are LoadErrorValue(undefines) / bitmap arithmetic / UnboundLocalError raises,
     branch variants).  LoadAddress of a register is not a read of it (uninit.py exempts it)."""
@@ -407,7 +407,8 @@ def dump_rich(d: "PassDumper", name: str, fn, labels: dict) -> None:
         return repr(x)
 
     def describe(op) -> str:
-        return type(op).__name__ + " " + " ".join(f"{k}={shape(v)}" for k, v in sorted(vars(op).items()))
+        # error_kind is left out: exceptions.py refines it in place (adjust_error_kinds); the X lines carry it
+        return type(op).__name__ + " " + " ".join(f"{k}={shape(v)}" for k, v in sorted(vars(op).items()) if k != "error_kind")
     w(f"F {re.sub(chr(92) + 's+', '_', name)}\n")
     w("A " + " ".join(str(d.vid(a)) for a in fn.arg_regs) + "\n")
     regs = []
@@ -449,12 +450,72 @@ def dump_rich(d: "PassDumper", name: str, fn, labels: dict) -> None:
                     tag = "raise_unbound"
                 elif isinstance(op, O.LoadAddress):
                     if isinstance(op.src, O.Register):
-                        tag = "loadaddr"      # the register is written through the pointer: outside the model
+                        tag = f"loadaddr:{d.vid(op.src)}"      # the register is written through the pointer: outside the model
                     srcs = []
                 dest = op.dest if isinstance(op, O.AssignMulti) else op
                 w(f"O {d.vid(dest)} {d.sym(describe(op))} {tag} " + " ".join(operand(x) for x in srcs) + "\n")
+                if xspec is not None:
+                    xs = xspec(op, describe, operand)
+                    if xs:
+                        w("Y " + xs + "\n")
+    if xspec is not None:
+        w("D " + xspec(None, describe, operand) + "\n")
     w("E\n")
     d.n += 1
+
+
+def exception_spec(d: "PassDumper", fn):
+    """What insert_exception_handling must do for an op, derived from the op alone (error kind table of mypyc/ir/ops.py):
+    the symbol of the branch to insert and, for overlapping error values, the symbols of the comparison ops and of the
+    PyErr_Occurred call.  Written against the IR classes, not against exceptions.py."""
+    from mypyc.ir import ops as O
+    from mypyc.ir.rtypes import RTuple, bool_rprimitive, is_float_rprimitive
+    from mypyc.primitives.exc_ops import err_occurred_op
+    func_name = fn.traceback_name
+
+    def bsym(variant: int, op, rare: bool = False, with_tb: bool = True) -> int:
+        tb = None
+        line = -1
+        if with_tb:
+            line = op.line
+            if op.line != O.NO_TRACEBACK_LINE_NO and func_name is not None:
+                tb = (func_name, op.line)
+        return d.sym(f"BR {variant} {tb!r} {int(rare)} {line}")
+
+    def spec(op, describe, operand):
+        if op is None:      # the default handler: e = <error value of the return type>; return e
+            return str(d.sym(describe(O.LoadErrorValue(fn.ret_type))))
+        if not isinstance(op, O.RegisterOp):
+            return None
+        ek = op.error_kind
+        if isinstance(op, (O.GetAttr, O.SetAttr)) and op.class_type.class_ir.is_always_defined(op.attr):
+            ek = O.ERR_NEVER
+        if ek == O.ERR_NEVER:
+            return None
+        if ek == O.ERR_MAGIC:
+            return f"m {bsym(O.Branch.IS_ERROR, op)}"
+        if ek == O.ERR_FALSE:
+            return f"f {bsym(O.Branch.BOOL, op)}"
+        if ek == O.ERR_ALWAYS:
+            return f"a {bsym(O.Branch.BOOL, op)} {operand(O.Integer(0, bool_rprimitive))}"
+        if ek == O.ERR_MAGIC_OVERLAPPING:
+            probes = []
+            typ = op.type
+            cur = op
+            while isinstance(typ, RTuple):
+                cur = O.TupleGet(cur, 0)
+                probes.append(f"{d.sym(describe(cur))} 1")
+                typ = cur.type
+            err = O.Float(float(typ.c_undefined)) if is_float_rprimitive(typ) else O.Integer(int(typ.c_undefined), rtype=typ)
+            cmp_ = O.ComparisonOp(cur, err, O.ComparisonOp.EQ)
+            probes.append(f"{d.sym(describe(cmp_))} 2 {operand(err)}")
+            call = O.CallC(err_occurred_op.c_function_name, [], err_occurred_op.return_type, err_occurred_op.steals,
+                           err_occurred_op.is_borrowed, err_occurred_op.error_kind, op.line,
+                           dependencies=err_occurred_op.dependencies)
+            return (f"v {len(probes)} " + " ".join(probes) + f" {bsym(O.Branch.BOOL, op, rare=True, with_tb=False)} "
+                    f"{d.sym(describe(call))} {bsym(O.Branch.IS_ERROR, op)}")
+        return f"? {ek}"
+    return spec
 
 
 def dump_passes(job: dict) -> None:
@@ -533,6 +594,25 @@ def dump_passes(job: dict) -> None:
         d.keep.extend(fn.blocks)
         dump_rich(d, fname(fn), fn, labels)
     emitmodule.insert_uninit_checks = wrapped_uninit
+    real_ex = emitmodule.insert_exception_handling
+
+    def wrapped_exc(fn, strict) -> None:
+        if not job.get("exceptions", True):
+            return real_ex(fn, strict)
+        d.begin_pair()
+        out.write("P exc\n")
+        labels = {id(b): i + 1 for i, b in enumerate(fn.blocks)}
+        d.keep.extend(fn.blocks)
+        dump_rich(d, fname(fn), fn, labels, exception_spec(d, fn))
+        real_ex(fn, strict)
+        k = len(labels)
+        for b in fn.blocks:
+            if id(b) not in labels:
+                k += 1
+                labels[id(b)] = k
+        d.keep.extend(fn.blocks)
+        dump_rich(d, fname(fn), fn, labels)
+    emitmodule.insert_exception_handling = wrapped_exc
     emitmodule.do_copy_propagation = wrap("copyprop", real_cp)
     emitmodule.do_flag_elimination = wrap("flagelim", real_fe)
     cache: dict[str, Any] = {}
